@@ -595,7 +595,7 @@ func c17FreshListing(c *Ctx, m *Module) {
 // versions", not "unset").
 func c17MinVersionFold(c *Ctx, m *Module, gen *ssa.Function) {
 	r := c.R
-	var folds []ssa.Instruction
+	var folds, inits []ssa.Instruction
 	nStores := 0
 	for _, in := range instrsOf(gen) {
 		mu, ok := in.(*ssa.MapUpdate)
@@ -622,6 +622,9 @@ func c17MinVersionFold(c *Ctx, m *Module, gen *ssa.Function) {
 		if cl, ok := strip(mu.Value).(*ssa.Call); ok && calleeName(&cl.Call) == "internal/configgen.minVersion" {
 			a := argsOf(cl)
 			lk, isLk := strip(a[1]).(*ssa.Lookup)
+			if ex, isEx := strip(a[1]).(*ssa.Extract); isEx && ex.Index == 0 {
+				lk, isLk = ex.Tuple.(*ssa.Lookup) // cur, ok := minVersions[p]
+			}
 			_, vf, isVer := fieldLoad(a[2])
 			okFold := describe(a[0]) == describe(mu.Key) && isLk && strip(lk.X) == ssa.Value(mp) && describe(lk.Index) == describe(mu.Key) && isVer && vf == "Version"
 			r.Check("C17.generate-shape", "generate/minimum version folds minVersion over the records", m.Pos(mu.Pos()), okFold,
@@ -634,7 +637,10 @@ func c17MinVersionFold(c *Ctx, m *Module, gen *ssa.Function) {
 		firstSeen := hasFact(factsAt(mu), func(f Fact) bool {
 			// `_, seen := programs[p]` held false
 			if lk := membershipTest(f.Cond); lk != nil && lk.CommaOk && !f.Pol {
-				return strip(lk.X) != ssa.Value(mp) && describe(lk.Index) == describe(mu.Key)
+				// (absent from the programs table, or absent from the minimum table itself: the
+				// two are filled together; what is NOT a first-seen test is a comparison of the
+				// stored minimum with "")
+				return describe(lk.Index) == describe(mu.Key)
 			}
 			bo, ok := f.Cond.(*ssa.BinOp)
 			if !ok || !isNilConst(bo.Y) || !assertsEq(bo, f.Pol) {
@@ -643,6 +649,9 @@ func c17MinVersionFold(c *Ctx, m *Module, gen *ssa.Function) {
 			lk, ok := strip(bo.X).(*ssa.Lookup)
 			return ok && strip(lk.X) != ssa.Value(mp) && describe(lk.Index) == describe(mu.Key)
 		})
+		if isVer && vf == "Version" && firstSeen {
+			inits = append(inits, mu)
+		}
 		r.Check("C17.generate-shape", "generate/minimum version initialised only when the program is first seen", m.Pos(mu.Pos()), isVer && vf == "Version" && firstSeen,
 			"a store of the record's version outside the fold is allowed only under programs[p] == nil; a test of the stored minimum (\"\" means all versions) is not \"first seen\"")
 	}
@@ -666,6 +675,12 @@ func c17MinVersionFold(c *Ctx, m *Module, gen *ssa.Function) {
 		}
 		isFold := func(in ssa.Instruction) bool {
 			for _, f := range folds {
+				if in == f {
+					return true
+				}
+			}
+			// the first record of a program may store its own version instead: min(v, v) = v
+			for _, f := range inits {
 				if in == f {
 					return true
 				}
